@@ -187,7 +187,14 @@ ELSVecs ==
   \o SeqMap(LAMBDA d : ELSOne(ELSEnc(11, T4[6], << 2, 88 >>, 0, 7, 100 + d, 100, 5), "els-innermismatch"), << -1, 1 >>)
   \o Cross2(T4, << << 0, 0 >>, << 0, 1 >>, << 255, 255 >> >>, LAMBDA pb, ex : Session(ELSFns, ELSEnc(11, pb, ex, 0, 7, 100, 100, 6), << >>, "els-times"))
 
-Vecs == CASE Fam = "lease" -> LeaseVecs \o SessionVecs [] Fam = "sig" -> SigVecs [] Fam = "offsig" -> OffVecs
+(******************************* primitive readers **************************)
+PrimVecs ==
+  << SessionSweep(<< "ReadDate", "NewDate" >>, Fill(8, 1), << >>, "date", 0),
+     SessionSweep(<< "ReadHash" >>, Fill(32, 2), << >>, "hash", 0) >>
+  \o SeqMap(LAMBDA d : SessionSweep(<< "ReadI2PString" >>, << d >> \o Fill(d, d), << >>, "string", 0), << 0, 1, 2, 17, 254, 255 >>)
+  \o SeqMap(LAMBDA sz : SessionSweep(<< "ReadInteger", "NewInteger" >>, Fill(sz, sz), [size |-> sz], "integer", 0), << 1, 2, 3, 4, 5, 6, 7, 8 >>)
+
+Vecs == CASE Fam = "prims" -> PrimVecs [] Fam = "lease" -> LeaseVecs \o SessionVecs [] Fam = "sig" -> SigVecs [] Fam = "offsig" -> OffVecs
           [] Fam = "raddr" -> RAddrVecs [] Fam = "rinfo" -> RInfoVecs [] Fam = "ls" -> LSVecs [] Fam = "ls2" -> LS2Vecs
           [] Fam = "meta" -> MetaVecs [] Fam = "els" -> ELSVecs
           [] OTHER -> LeaseVecs \o SessionVecs \o SigVecs \o OffVecs \o RAddrVecs \o RInfoVecs \o LSVecs \o LS2Vecs \o MetaVecs \o ELSVecs
